@@ -82,15 +82,14 @@ def build():
             && rr.len() <= ec_size(self.key_type) && ss.len() <= ec_size(self.key_type)
             && v@ == crate::openssl::bn::left_pad(rr, ec_size(self.key_type)) + crate::openssl::bn::left_pad(ss, ec_size(self.key_type)), //@C15.ecdsa_r_s_left_padded,C04.ecdsa_signature_is_r_s_left_padded
         r matches Ok(v) ==> v@.len() == 2 * ec_size(self.key_type) && ec_size(self.key_type) > 0, //@C15.ecdsa_signature_fixed_width
-""", at=[("before_tail", None, 1, """
-        proof {
-            let n = ec_size(self.key_type);
-            assert(r_before@ =~= crate::openssl::bn::left_pad(sig0.r.be@, n)); //@C15.ecdsa_r_s_left_padded,C04.ecdsa_signature_is_r_s_left_padded
-            assert(s_before@ =~= crate::openssl::bn::left_pad(sig0.s.be@, n)); //@C15.ecdsa_r_s_left_padded,C04.ecdsa_signature_is_r_s_left_padded
-        }"""),
-         ("before_stmt_re", r"let mut \w+ = (\w+);\s*\w+\.append\(&mut (\w+)\);", 1, "let ghost r_before = $1; let ghost s_before = $2; let ghost sig0 = $sig;")],
+""", at=[
+         # each half, right where the code builds it, is the number left-padded to the curve size (however the halves are put together afterwards)
+         ("after_stmt_re", r"let (?:mut )?(\w+) = \{\s*let mut \w+ = (\w+)\.r\(\)\.to_vec\(\);", 1,
+          "proof { assert($1@ =~= crate::openssl::bn::left_pad($2.r.be@, ec_size(self.key_type))); } //@C15.ecdsa_r_s_left_padded,C04.ecdsa_signature_is_r_s_left_padded"),
+         ("after_stmt_re", r"let (?:mut )?(\w+) = \{\s*let mut \w+ = (\w+)\.s\(\)\.to_vec\(\);", 1,
+          "proof { assert($1@ =~= crate::openssl::bn::left_pad($2.s.be@, ec_size(self.key_type))); } //@C15.ecdsa_r_s_left_padded,C04.ecdsa_signature_is_r_s_left_padded")],
         rewrites=[("T-ITER", r"s\.resize_with\((?P<n>[^,]*), \|\| 0\);", r"crate::openssl::bn::resize_zero(&mut s, \g<n>);", None)],
-        names={"sig": r"let (\w+) = EcdsaSig::sign\("})})
+        )})
     JWK_LBL = "//@C15.jwk_is_the_one_of_the_key_type,C05.thumbprint_input_of_the_account_key_is_the_rfc7638_form,C04.jwk_member_is_the_exact_public_key"
     u.verify(K, "KeyPair::get_jwk_public_key", "crypto", props=["C15", "C05", "C04"], fns={"get_jwk_public_key": FnSpec(ret="r", sig="""
     requires self.wf(),
@@ -143,6 +142,18 @@ def build():
 """)})
     u.verify(K, "KeyPair::public_key_to_pem", "crypto", props=["C15", "C11"], fns={"public_key_to_pem": FnSpec(ret="r", sig="""
     ensures r matches Ok(v) ==> v@ == crate::openssl::pkey::public_pem(self.inner_key.ident@), //@C15.public_key_pem_is_of_this_key,C11.public_key_pem_is_of_this_key
+""")})
+    u.verify(K, "gen_rsa_pair", "crypto", props=["C15"], fns={"gen_rsa_pair": FnSpec(ret="r", sig="""
+    ensures r matches Ok(k) ==> k.kind@ == (crate::openssl::pkey::KeyKind { id: Id::RSA, rsa_size: nb_bits / 8, curve: None }), //@C15.generated_key_has_requested_type
+""")})
+    u.verify(K, "gen_ec_pair", "crypto", props=["C15"], fns={"gen_ec_pair": FnSpec(ret="r", sig="""
+    ensures r matches Ok(k) ==> k.kind@ == (crate::openssl::pkey::KeyKind { id: Id::EC, rsa_size: 0, curve: Some(nid) }), //@C15.generated_key_has_requested_type
+""")})
+    u.verify(K, "gen_ed25519_pair", "crypto", props=["C15"], fns={"gen_ed25519_pair": FnSpec(ret="r", sig="""
+    ensures r matches Ok(k) ==> k.kind@ == (crate::openssl::pkey::KeyKind { id: Id::ED25519, rsa_size: 0, curve: None }), //@C15.generated_key_has_requested_type
+""")})
+    u.verify(K, "gen_ed448_pair", "crypto", props=["C15"], fns={"gen_ed448_pair": FnSpec(ret="r", sig="""
+    ensures r matches Ok(k) ==> k.kind@ == (crate::openssl::pkey::KeyKind { id: Id::ED448, rsa_size: 0, curve: None }), //@C15.generated_key_has_requested_type
 """)})
     u.verify(K, "gen_keypair", "crypto", props=["C15"], fns={"gen_keypair": FnSpec(ret="r", sig="""
     ensures r matches Ok(k) ==> k.wf() && k.key_type == key_type, //@C15.generated_key_has_requested_type
@@ -245,16 +256,4 @@ impl KeyPair {
     fn get_eddsa_jwk(&self, thumbprint: bool) -> (r: Result<Value, Error>)
         ensures r matches Ok(j) ==> j.members@ == okp_jwk(*self, thumbprint) { unimplemented!() }
 }
-#[verifier::external_body]
-fn gen_rsa_pair(nb_bits: u32) -> (r: Result<PKey<Private>, Error>)
-    ensures r matches Ok(k) ==> k.kind@ == (crate::openssl::pkey::KeyKind { id: Id::RSA, rsa_size: nb_bits / 8, curve: None }) { unimplemented!() }
-#[verifier::external_body]
-fn gen_ec_pair(nid: Nid) -> (r: Result<PKey<Private>, Error>)
-    ensures r matches Ok(k) ==> k.kind@ == (crate::openssl::pkey::KeyKind { id: Id::EC, rsa_size: 0, curve: Some(nid) }) { unimplemented!() }
-#[verifier::external_body]
-fn gen_ed25519_pair() -> (r: Result<PKey<Private>, Error>)
-    ensures r matches Ok(k) ==> k.kind@ == (crate::openssl::pkey::KeyKind { id: Id::ED25519, rsa_size: 0, curve: None }) { unimplemented!() }
-#[verifier::external_body]
-fn gen_ed448_pair() -> (r: Result<PKey<Private>, Error>)
-    ensures r matches Ok(k) ==> k.kind@ == (crate::openssl::pkey::KeyKind { id: Id::ED448, rsa_size: 0, curve: None }) { unimplemented!() }
 """
